@@ -226,6 +226,10 @@ def qtypeStr (is4 : Bool) : Str := if is4 then ['1'] else ['2', '8']
 
 def cacheKey (name : Str) (is4 : Bool) : Str := canonicalName name ++ qtypeStr is4
 
+/-- `DnsController.cacheKey(qname, qtype)` for an arbitrary query type (decimal type number;
+`cacheKeyQ n 1 = cacheKey n true`, `cacheKeyQ n 28 = cacheKey n false`). -/
+def cacheKeyQ (name : Str) (qtype : Nat) : Str := canonicalName name ++ itoa qtype
+
 /-- `dnsCacheBaseKey`: the part before the first `|`. -/
 def baseKeyOf (ck : Str) : Str := match splitFirst '|' ck with | some (a, _) => a | none => ck
 
@@ -319,14 +323,14 @@ def hasKnowledge (w : World) (baseKey : Str) : World × Bool :=
 (`UpdateDnsCacheTtl[WithKey]`, no fixed-TTL override). `key = ""` is `UpdateDnsCacheTtl` (the key is
 computed); production passes scoped keys `cacheKey(qname, qtype) ++ "|" ++ scope`
 (`responseCacheKey`). Returns `false` for the "pure IP" bypass. -/
-def updateKey (host : Str) (is4 : Bool) (key : Str) : Str :=
+def updateKey (host : Str) (qtype : Nat) (key : Str) : Str :=
   let fqdn := if host.getLast? = some '.' then host.map lowerAscii else canonicalName host
-  if key = [] then cacheKey fqdn is4 else key
+  if key = [] then cacheKeyQ fqdn qtype else key
 
-def dnsUpdate (w : World) (host : Str) (is4 : Bool) (ttlNs : Int) (key : Str) : World × Bool :=
+def dnsUpdate (w : World) (host : Str) (qtype : Nat) (ttlNs : Int) (key : Str) : World × Bool :=
   let host' := if host.getLast? = some '.' then host.dropLast else host
   if parseAddrOk host' then (w, false) else
-  let ck := updateKey host is4 key
+  let ck := updateKey host qtype key
   let od := w.now + ttlNs
   let w1 := { w with cache := w.cache.put ck od }
   (remember w1 (baseKeyOf ck) od, true)
@@ -336,6 +340,38 @@ def dnsRemove (w : World) (ck : Str) : World :=
   match w.cache.get ck with
   | none => w
   | some od => forget { w with cache := w.cache.del ck } ck od
+
+/-- `evictDnsRespCacheIfSame(cacheKey, cache)` (janitor / LRU eviction of the entry currently
+stored under the key): the same delete-then-forget as `RemoveDnsRespCache`. -/
+def dnsEvict (w : World) (ck : Str) : World := dnsRemove w ck
+
+/-- `RemoveDnsRespCacheFamily(baseKey)` (a DNS answer rejected by response routing): every entry of
+the family is deleted, then `syncDnsKnowledge(baseKey)`. -/
+def dnsRemoveFamily (w : World) (bk : Str) : World :=
+  if bk = [] then w else
+  syncKnow { w with cache := w.cache.filter fun e => baseKeyOf e.1 ≠ bk } bk
+
+/-- `RestoreReloadCache(entries, …)`: every carried-over entry is stored and remembered with its
+ORIGINAL deadline. -/
+def dnsRestore (w : World) : List (Str × Int) → World
+  | [] => w
+  | (ck, od) :: rest => dnsRestore (remember { w with cache := w.cache.put ck od } (baseKeyOf ck) od) rest
+
+/-- `DnsController.Close` (store teardown): cache and knowledge are emptied. -/
+def dnsClose (w : World) : World := { w with cache := [], know := [] }
+
+/-- `minFirefoxCacheTtl` -/
+def minFirefoxCacheTtl : Nat := 120
+
+/-- `NormalizeAndCacheDnsResp_(msg, key)`: only a response with a question and rcode NOERROR is
+cached — with the TTL of the first answer, or `minFirefoxCacheTtl` for an EMPTY answer section
+(NODATA counts as a resolution), clamped to one year. -/
+def dnsResp (w : World) (isResponse hasQuestion rcodeOk : Bool) (qname : Str) (qtype : Nat)
+    (firstAnswerTtl : Option Nat) (key : Str) : World × Bool :=
+  if !isResponse || !hasQuestion || !rcodeOk then (w, false) else
+  let ttl := match firstAnswerTtl with | some t => t | none => minFirefoxCacheTtl
+  let ttl := if ttl > 31536000 then 31536000 else ttl
+  dnsUpdate w qname qtype ((ttl : Int) * 1000000000) key
 
 /-! ### real-domain caches and the probe -/
 
@@ -464,14 +500,30 @@ def chooseProxyDialer (w : World) (ob : Nat) (dst : Dst) (d : Str) (route : Str 
       fin w ob2 c2 (c1.probeReq <|> c2.probeReq)
   else fin w ob1 c1 c1.probeReq
 
+/-- `routeDial`: at most two attempts. `failFirst` = the node dialer failed the first dial with an
+error for which `shouldForceMarkUnavailableOnProxyDialError` holds (the dialer is then marked
+unavailable and `chooseProxyDialer` runs again with the SAME parameters). `settle` is what happens
+between the attempts (the asynchronous probe completing). Returns the dials made, in order. -/
+def routeDial (w : World) (ob : Nat) (dst : Dst) (d : Str) (route : Str → Option Nat) (nOut : Nat)
+    (failFirst : Bool) (settle : World → Option Str → World) : World × List DialOut :=
+  let (w1, o1) := chooseProxyDialer w ob dst d route nOut
+  let w1 := settle w1 o1.probeReq
+  if o1.outbound.isNone || !failFirst then (w1, [o1])
+  else
+    let (w2, o2) := chooseProxyDialer w1 ob dst d route nOut
+    (settle w2 o2.probeReq, [o1, o2])
+
 /-! ### events (for the history theorems and the stateful driver) -/
 
 inductive Event
   | setMode (m : Mode)
   | setBoot (n : Nat)
   | advance (ns : Nat)
-  | dnsUpdate (host : Str) (is4 : Bool) (ttlNs : Int) (key : Str)
+  | dnsUpdate (host : Str) (qtype : Nat) (ttlNs : Int) (key : Str)
   | dnsRemove (ck : Str)
+  | dnsRemoveFamily (bk : Str)
+  | dnsRestore (entries : List (Str × Int))
+  | dnsClose
   | hasKnow (name : Str) (is4 : Bool)
   | choose (ob : Nat) (dst : Dst) (d : Str)
   | probeDone (d : Str) (answers : List Ans)
@@ -481,8 +533,11 @@ def step (w : World) : Event → World
   | .setMode m => { w with mode := m }
   | .setBoot n => { w with nboot := n }
   | .advance ns => { w with now := w.now + ns }
-  | .dnsUpdate h is4 ttl sc => (dnsUpdate w h is4 ttl sc).1
+  | .dnsUpdate h q ttl sc => (dnsUpdate w h q ttl sc).1
   | .dnsRemove ck => dnsRemove w ck
+  | .dnsRemoveFamily bk => dnsRemoveFamily w bk
+  | .dnsRestore es => dnsRestore w es
+  | .dnsClose => dnsClose w
   | .hasKnow n is4 => (hasKnowledge w (cacheKey n is4)).1
   | .choose ob dst d => (chooseDialTarget w ob dst d).1
   | .probeDone d a => probe w d a
